@@ -229,6 +229,67 @@ func bitflips(d *donor, stride int, yield func(Mutant)) {
 	}
 }
 
+// decodedBitflips flips single bits of the DECODED protected header and
+// payload of a JWS envelope and re-encodes them (signature untouched): the
+// natural single-bit mutations of the signed content, which a flip in the
+// base64 text does not reach.
+func decodedBitflips(d *donor, stride int, yield func(Mutant)) {
+	if d.mt != sims.JWS {
+		return
+	}
+	for _, part := range []string{"protected", "payload"} {
+		src := d.jws.ProtectedRaw
+		if part == "payload" {
+			src = d.jws.Payload
+		}
+		for bit := 0; bit < len(src)*8; bit += stride {
+			m := append([]byte{}, src...)
+			m[bit/8] ^= 1 << uint(bit%8)
+			b := &envcodec.JWSBuild{ProtRaw: d.jws.ProtectedRaw, Payload: d.jws.Payload, Sig: d.jws.Sig, Chain: d.jws.Chain, Agent: d.jws.Agent}
+			if part == "payload" {
+				b.Payload = m
+			} else {
+				b.ProtRaw = m
+			}
+			data, err := envcodec.BuildJWS(b)
+			if err != nil {
+				continue
+			}
+			yield(Mutant{MT: d.mt, Class: "bitflip", Region: part, Desc: fmt.Sprintf("%s decoded %s bit %d", d.name, part, bit), Data: data})
+		}
+	}
+}
+
+// dualChains builds COSE envelopes that carry an x5chain in BOTH buckets: the
+// protected (signed) one names one certificate chain, the unprotected one
+// another. The envelope's chain is the unprotected header's; whoever signed
+// must be its leaf.
+func dualChains(c *corpus, yield func(Mutant)) {
+	fam := c.family[sims.COSE]
+	for ai, a := range fam {
+		for vi, v := range fam {
+			if ai == vi {
+				continue
+			}
+			// signed by a's key; protected x5chain = a's chain, unprotected = v's
+			var prot []envcodec.KV
+			for _, m := range a.cose.Prot {
+				prot = append(prot, envcodec.KV{K: m.Label.Raw, V: m.Raw})
+			}
+			prot = append(prot, envcodec.KV{K: envcodec.Int(envcodec.CX5Chain), V: envcodec.X5Chain(a.cose.Chain)})
+			pm := envcodec.Map(prot)
+			alg := envcodec.KeyAlg(a.ch.Keys[0].Public())
+			data, err := envcodec.BuildCOSE(&envcodec.COSEBuild{ProtMapRaw: pm, Payload: a.cose.Payload, Alg: alg, Key: a.ch.Keys[0].Priv,
+				Unprot: []envcodec.KV{{K: envcodec.Int(envcodec.CX5Chain), V: envcodec.X5Chain(v.cose.Chain)}}})
+			if err != nil {
+				continue
+			}
+			recordSigned(a.ch.Certs[0].RawSubjectPublicKeyInfo, envcodec.SigStructure(pm, a.cose.Payload))
+			yield(Mutant{MT: sims.COSE, Class: "chain", Region: "dual-x5chain", Desc: fmt.Sprintf("cose signed by d%d with protected x5chain d%d and unprotected x5chain d%d", ai+1, ai+1, vi+1), Data: data})
+		}
+	}
+}
+
 func boundaries(d *donor, yield func(Mutant)) {
 	for _, s := range regionsOf(d) {
 		for _, pos := range []int{s.from, s.from + 1, s.to - 1, s.to} {
@@ -691,8 +752,10 @@ func run(r *core.Run) int {
 			stride = 5
 		}
 		bitflips(d, stride, add)
+		decodedBitflips(d, stride, add)
 		boundaries(d, add)
 	}
+	dualChains(c, add)
 	splices(c, add)
 	chainEdits(c, add)
 	reencodings(c, add)
